@@ -536,6 +536,9 @@ macro_rules! msm_data_seg_frag {
                 let sat_len = mask_len_u64(sat_mask);
                 let sig_len = mask_len_u32(sig_mask);
 
+                if sat_len * sig_len > 64 {
+                    return Err(RtcmError::InvalidSatelliteSignalCount);
+                }
                 let cell_mask = par.parse::<U64>(sat_len * sig_len)?;
                 if let Some((sat_vec, cell_vec)) = cell_mask_id_vec(sat_mask, sig_mask, cell_mask) {
                     let satellite_data = $sat_id::decode(par, &sat_vec)?;
